@@ -297,15 +297,22 @@ class PowerManagingActor(Actor):  # pylint: disable=too-many-instance-attributes
                 component_ids,
                 None,
                 self._calculate_shifted_bounds(
-                    self._system_bounds[component_ids], tgt_power_no_shift
+                    self._system_bounds[component_ids],
+                    # `None` means unchanged, so shift by the current target.
+                    tgt_power_no_shift
+                    or self._set_power_group.get_target_power(component_ids),
                 ),
                 must_send,
             )
-        if tgt_power_shift is not None and tgt_power_no_shift is not None:
-            return tgt_power_shift + tgt_power_no_shift
-        if tgt_power_shift is not None:
-            return tgt_power_shift
-        return tgt_power_no_shift
+        if tgt_power_shift is None and tgt_power_no_shift is None:
+            return None
+        # `None` means the target of that group didn't change.  The power to distribute
+        # is always the sum of the current targets of both groups.
+        if tgt_power_shift is None:
+            tgt_power_shift = self._set_op_power_group.get_target_power(component_ids)
+        if tgt_power_no_shift is None:
+            tgt_power_no_shift = self._set_power_group.get_target_power(component_ids)
+        return (tgt_power_shift or Power.zero()) + (tgt_power_no_shift or Power.zero())
 
     async def _send_updated_target_power(
         self,
